@@ -107,12 +107,17 @@ def _parse_op(w):
     return tuple(out)
 
 
-def load_corpus(subdir="findings"):
+def load_corpus(subdir="findings", with_force=False):
+    """the recorded histories.  Those containing a ForceBackup re-baseline a path, so the
+    oracles that compare with the *initial* tree do not apply to them: they are used only by
+    the checks that ask for them (C17, C08's ForceBackup stream)."""
     import glob
     from common import VERIF
     cases = []
     for f in sorted(glob.glob(os.path.join(VERIF, "corpus", subdir, "*.case"))):
         cases += parse_cases(open(f).read())
+    if not with_force:
+        cases = [c for c in cases if not any(o[0] == "forcebackup" for o in c.ops)]
     return cases
 
 
